@@ -18,6 +18,8 @@ CONSTANTS
   TrackHist = FALSE
   RecoveryAbortsOnLostRace = FALSE
   IndexBeforeRoute = TRUE
+  IncBeforeRetry = TRUE
+  WaitedOn = {}
 CONSTRAINT Bounded
 INVARIANT TypeOK
 INVARIANT NoStranded
